@@ -1,6 +1,6 @@
 """What is claimed, per property. A property appears in CLAIMS only once its checker exists and
 passes on the unchanged tree."""
-FIX_COMMITS = ["4e9e139"]
+FIX_COMMITS = ["4e9e139", "5ee6583", "744f482"]
 
 CLAIMS = {
     "C09": dict(
@@ -29,6 +29,16 @@ CLAIMS = {
         ref="DESIGN.md §3 C18",
         note="trusts json.dumps/loads on scalars and lists, and user _from_json to invert user to_json",
         technique="static analysis: sibling cross-check of writer/reader ASTs with resolved names",
+    ),
+    "C16": dict(
+        text="Decides, for every write path the property names, the structural conditions that make it keep the data and infer: "
+             "the finite table of element-adding list/set mutators is resolved through the monitored classes' MRO (override, "
+             "per-element hook call, builtin store, recording not suppressed), the hook's decision table records whenever an owner is "
+             "bound, the setter's CFG never reads the assigned value after clearing the live container (self-assignment, +=, |=), no set "
+             "conversion precedes a list container, single-valued assignment stores and records. The closure of inferences is C15.",
+        ref="DESIGN.md §3 C16",
+        note="trusts the frozen table of list/set mutators that can add elements and CPython's evaluation order of augmented assignment on descriptors",
+        technique="static analysis: MRO-resolved override coverage, call-closure reachability, CFG ordering, decision table of the hook",
     ),
 }
 
